@@ -57,7 +57,9 @@ func Describe(p int) string {
 func Files(p int) map[string]string {
 	f := map[string]string{}
 	f["go.mod"] = "module example.com/m\n\ngo 1.22\n"
-	depr := ""
+	// the toggle keeps the line count (and so every position in dep's export data) unchanged:
+	// only dep's source hash tells the two versions apart
+	depr := "//\n// Do not remove: see New.\n"
 	if p&Deprecated != 0 {
 		depr = "//\n// Deprecated: use New.\n"
 	}
